@@ -524,7 +524,11 @@ class ZorgFileCompiler(ZorgFileListener):
                 words = bullet.split()
                 if words and zdt.is_short_date_spec(words[0]):
                     words.pop(0)
-                if words and zdt.is_zid(words[0]):
+                # NOTE: A note that has no ZID yet can start with its create
+                # date (YYYY-MM-DD) instead.
+                if words and (
+                    zdt.is_zid(words[0]) or zdt.is_long_date_spec(words[0])
+                ):
                     words.pop(0)
                 if not words:
                     continue
